@@ -118,3 +118,24 @@ func DebugMiss(repo, name string) {
 		}
 	}
 }
+
+func DebugItems(repo string) {
+	p, _ := Load(Config{Repo: repo})
+	wl := runWalkLayers(p)
+	seen := map[string]bool{}
+	for _, rc := range ruleCalls(wl) {
+		if fnName(rc.we.Run.Fn) != "(*valid.VStruct).validate" {
+			continue
+		}
+		s := rc.item + "\n    obj=" + rc.obj + "\n    fld=" + rc.fld + "\n    val=" + rc.v
+		for k, v := range rc.we.E.PC {
+			if len(k) < 160 && (k[:3] == "eq(" || k[:3] == "lt(") && !seen[k] {
+				s += fmt.Sprintf("\n      %s=%d", k, v)
+			}
+		}
+		if !seen[rc.item] {
+			seen[rc.item] = true
+			fmt.Println(s)
+		}
+	}
+}
